@@ -230,6 +230,7 @@ def run(res):
                               hist, [(f["ms"], f["rows"]) for f in f2], [(f["ms"], f["rows"]) for f in files])
 
     wl.run_histories(res, 60 if res.tier == "quick" else 1500, oracle, modes=["cont", "cont+comp", "cont+cksum", "cont"])
+    legacy_props_leg(res)
     res.trusted += ["translate/fill2gallina.py (T5): an interpreter of the clang AST of digital_rf_set_fill_value, run once per cell with the "
                     "HDF5 type queries stubbed and a little-endian host; NAN = canonical quiet NaN bits; the resulting bytes are "
                     "compared with the fill read back from real files for every cell",
@@ -239,5 +240,67 @@ def run(res):
                         "Model/FillValue.v is a hand model of digital_rf_set_fill_value on a little-endian host, tied by the complete cell enumeration above"]
 
 
+def legacy_props_case(attr, dtype_kind="i2"):
+    """a continuous (no compression, no checksums) channel whose drf_properties.h5 lacks one attribute -- written by
+    another version of the library, or damaged.  A new recorder either refuses the channel or, if it goes on, every
+    file it makes is still one full block over its window.  -> ("refused" | "accepted", problem or None)"""
+    import h5py
+    import digital_rf  # noqa
+    work = common.scratch_dir("c07legacy-")
+    chdir = os.path.join(work, "top", "ch")
+    cfg = wl.Cfg(100, 1, 2, 1000, 1500000000 * 100, True, 0, False, "i", 2, "<", False, 1)
+    pf = cfg.per_file()
+    rep, w = wl.run_impl(cfg, [("w", 0, pf // 2, 1), ("c",)], chdir)
+    with h5py.File(os.path.join(chdir, "drf_properties.h5"), "r+") as h:
+        if attr not in h.attrs:
+            return "absent", None
+        del h.attrs[attr]
+    c2 = wl.Cfg(cfg.n, cfg.d, cfg.sc, cfg.fc, wl.file_start(cfg, wl.F_of(cfg, cfg.start) + 3 * cfg.fc) + 30, True, 0, False,
+                cfg.kind, cfg.size, cfg.order, cfg.is_complex, cfg.nsub)
+    before = {f["name"] for f in wl.dump_files(chdir)}
+    try:
+        w2 = wl.make_writer(c2, chdir)
+    except Exception:  # noqa
+        return "refused", None
+    try:
+        w2.rf_write(np.arange(40, dtype="i2") + 1)
+        w2.rf_write(np.arange(10, dtype="i2") + 1, 55)
+        w2.close()
+    except Exception as e:  # noqa
+        return "accepted", ("write-fails", repr(e)[:200])
+    for f in wl.dump_files(chdir):
+        if f["tmp"] or f["name"] in before:
+            continue
+        lo, hi = wl.file_start(cfg, f["ms"]), wl.file_start(cfg, f["ms"] + cfg.fc)
+        if [tuple(r) for r in f["rows"]] != [(lo, 0)] or f["data"].shape[0] != hi - lo:
+            return "accepted", (f["name"], [[(lo, 0)], hi - lo], [f["rows"], f["data"].shape[0]])
+    return "accepted", None
+
+
+LEGACY_ATTRS = ["is_continuous", "is_complex", "num_subchannels", "file_cadence_millisecs", "subdir_cadence_secs",
+                "sample_rate_numerator", "sample_rate_denominator", "H5Tget_class", "H5Tget_size", "H5Tget_order",
+                "H5Tget_precision", "H5Tget_offset", "digital_rf_version", "epoch"]
+
+
+def legacy_props_leg(res):
+    for attr in LEGACY_ATTRS:
+        what, prob = legacy_props_case(attr)
+        res.count("properties-file-lacking-an-attribute:" + what)
+        if prob:
+            res.violation("not-one-full-block", "a continuous recorder that goes on over a properties file lacking `%s` makes a file "
+                          "that is not one full block over its window" % attr, {"legacy_properties_without": attr},
+                          prob[1] if len(prob) > 2 else "files of one full block", prob[2] if len(prob) > 2 else list(prob))
+            return
+
+
 def replay(res, rp):
+    if isinstance(rp.get("input"), dict) and "legacy_properties_without" in rp["input"]:
+        common.use_impl()
+        a = rp["input"]["legacy_properties_without"]
+        what, prob = legacy_props_case(a)
+        print("continuous channel (100 Hz, one file per second) whose drf_properties.h5 lacks `%s`: the second recorder is %s" % (a, what))
+        if prob:
+            print("VIOLATION:", prob)
+        print("replay verdict:", "STILL VIOLATING" if prob else "no longer violating")
+        return 1 if prob else 0
     return wl.replay(res, rp)
